@@ -18,6 +18,39 @@ def cli(ctx, args, cwd):
             "tail": out[-400:]}
 
 
+def impl_parse(args):
+    """what main() would hand to MasterOfPuppets for this argv (real argparse configuration, in-process)"""
+    import sys
+    from jasm import main as jmain
+    old = sys.argv
+    sys.argv = ["jasm"] + list(args)
+    import io, contextlib
+    try:
+        with contextlib.redirect_stderr(io.StringIO()):
+            try:
+                a = jmain.parse_args_from_console()
+            except SystemExit:
+                return ("err", "usage")
+        try:
+            kind = jmain.decide_assembly_or_binary(a)
+        except ValueError:
+            return ("err", "ValueError")
+        binary = kind == impl.InputFileType.binary
+        return ("ok", {"pattern": a.pattern, "input": a.binary if binary else a.assembly, "kind": "binary" if binary else "assembly",
+                       "mode": "all" if a.all_matches else "first", "addrOnly": bool(a.return_only_address), "macros": a.macros or []})
+    finally:
+        sys.argv = old
+
+
+def tie_args(ctx, args, case):
+    m = model.outcome(ctx.driver.call({"op": "cli", "argv": list(args)}))
+    i = impl_parse(args)
+    if m[0] == "unsup":
+        ctx.report.unsupported += 1
+    elif m[0] != i[0] or (m[0] == "ok" and m[1] != i[1]):
+        ctx.report.disagree("T6-argument-parsing", case, i, m)
+
+
 def run(ctx, factor):
     g, rep = ctx.g, ctx.report
     rep.rule = ("random rule/input pairs x every combination of -s/-b, --all-matches, --return_only_address, --macros (0-2 files): "
@@ -55,6 +88,7 @@ def run(ctx, factor):
         if g.chance(0.3):
             g.r.shuffle(args) if False else None
         c = cli(ctx, args, cwd)
+        tie_args(ctx, args, {"argv": args})
 
         def api(ret):
             def go():
@@ -90,10 +124,20 @@ def run(ctx, factor):
         ("non-object binary", ["-p", rule_path, "-b", notobj]),
     ]:
         c = cli(ctx, args, cwd)
+        tie_args(ctx, args, {"argv": args})
         case = {"argv": args, "expectation": name + " must exit non-zero"}
         if c["rc"] == 0:
             rep.violate("failing-invocation-exits-zero", case, "non-zero exit status", c)
         rep.case(case, True, tags=["reject:" + name])
+    # argument parsing alone, many random command lines (no process spawned)
+    toks = ["-p", "--pattern", "-s", "--assembly", "-b", "--binary", "--all-matches", "--return_only_address", "--macros",
+            "--debug", "--info", "r.yaml", "a.s", "a.out", "m1.yaml", "m2.yaml", "x", "--dissasemble-program"]
+    for _ in range(ctx.budget(300, 5000)):
+        args = [g.pick(toks) for _ in range(g.int(0, 8))]
+        if g.chance(0.5):
+            args = ["-p", "r.yaml", g.pick(["-s", "-b"]), "in"] + args
+        tie_args(ctx, args, {"argv": args})
+        rep.case({"argv": args}, False, tags=["argv-only"])
     c = cli(ctx, ["-p", rule_path, "-s", in_path], cwd)
     if c["rc"] != 0 or not c["found"]:
         rep.violate("valid-invocation-fails", {"argv": ["-p", rule_path, "-s", in_path]}, "exit 0 and RESULT: Pattern found", c)
